@@ -33,7 +33,8 @@
 (* A block (element of Blocks) carries the name-level fields                                  *)
 (*   endo    Seq([name, reads])  user-written endogenous lines in text order (reads: Seq)     *)
 (*   lagged  Seq([name, of])     name = of(k-1)                                               *)
-(*   exos    Seq([name, len])    exogenous list and the length of the list the text gives     *)
+(*   exos    Seq([name, len, reads])  exogenous list, the length of the list the text gives    *)
+(*                               and the math / builtin names its expression uses              *)
 (*   ics     Seq(STRING)         variables with a  v(0) = ...  line                           *)
 (*   maxTime Nat                                                                              *)
 (*   foundT  BOOLEAN             some line defines t or t_minus_1                             *)
@@ -42,7 +43,8 @@ EXTENDS Integers, Sequences, FiniteSets, TLC
 
 CONSTANTS
     Blocks,               \* set of blocks
-    MathNames,            \* names the generated module gets from  "from math import *"
+    MathNames,            \* names of the math module that blocks use: the in-process solver resolves them
+                          \* (from math import *), so the generated module has to resolve them too
     ResidChoices,         \* values RunStep may take for the residual flag ({TRUE} in the bounded instance)
     MaxGenerations,       \* how many modules one generator object may write (main() called that often)
     AsFound_KUndefined,   \* TRUE: the pinned code - nothing in the generated module binds k
@@ -65,6 +67,10 @@ ModuleOwnNames == {"STEP", "MaxTime", "MaxIterations", "Err_Tolerance", "PrintIt
                    "main", "RunOneStep", "Iterator", "CalcError", "WriteCSV", "CreateCsvString", "orig_vector"}
 (* loop state of the fixed-point iteration in RunOneStep: must not be a block variable's value *)
 LoopNames == {"err", "cnt"}
+(* builtins the parser lets equations use (utils.get_invalid_tokens: good_tokens) *)
+BuiltinNames == {"float", "max", "min", "sum", "pow", "abs", "round"}
+(* every name the in-process solver resolves for an accepted block besides the block's own variables *)
+SolverNames == MathNames \cup BuiltinNames
 
 ----------------------------------------------------------------------------
 (* EquationParser.ParseString as seen through IterativeMachineGenerator.ParseString *)
@@ -87,7 +93,8 @@ ReadsK(p) == \E i \in DOMAIN p.endo : "k" \in Range(p.endo[i].reads)
 
 GenEqOp(p) ==
     LET addK  == ~AsFound_KUndefined /\ ReadsK(p) /\ "k" \notin DefinedNames(p)
-        exos2 == IF addK THEN Append(p.exos, [name |-> "k", len |-> p.maxTime + 1]) ELSE p.exos
+        exos2 == IF addK THEN Append(p.exos, [name |-> "k", len |-> p.maxTime + 1, reads |-> << "float" >>])
+                 ELSE p.exos
     IN [ exos      |-> exos2,
          all       |-> NamesOf(p.endo) \o NamesOf(p.lagged) \o NamesOf(exos2),
          nonLagged |-> NamesOf(p.endo) \o NamesOf(exos2),
@@ -114,7 +121,10 @@ HeaderOf(vl) ==
 (* GenerateFile: the sections of the written module *)
 GenFileOp(p, g) ==
     LET ch == IF AsFound_ChainedLagNoSeries THEN << >> ELSE Chained(p) IN
-    [ decl     |-> [ i \in DOMAIN p.endo |-> [name |-> p.endo[i].name, len |-> 1] ]
+    [ globals  |-> SolverNames,              \* "from math import *" + builtins: all the solver resolves
+      declReads |-> [ i \in DOMAIN p.endo |-> << >> ] \o [ i \in DOMAIN ch |-> << >> ]
+                    \o [ i \in DOMAIN g.exos |-> g.exos[i].reads ],
+      decl     |-> [ i \in DOMAIN p.endo |-> [name |-> p.endo[i].name, len |-> 1] ]
                    \o [ i \in DOMAIN ch |-> [name |-> ch[i], len |-> 1] ]
                    \o [ i \in DOMAIN g.exos |->
                           [name |-> g.exos[i].name, len |-> Min(g.exos[i].len, p.maxTime + 1)] ],
@@ -135,7 +145,9 @@ GenFileOp(p, g) ==
       header   |-> HeaderOf(g.nonLagged) ]
 
 ClosedFile(f) ==
-    \A i \in DOMAIN f.iterReads : Range(f.iterReads[i]) \subseteq (Range(f.iterUnpack) \cup MathNames)
+    \A i \in DOMAIN f.iterReads : Range(f.iterReads[i]) \subseteq (Range(f.iterUnpack) \cup f.globals)
+(* ... and every name an exogenous list expression in __init__ uses is a global of the module *)
+DeclClosed(f) == \A i \in DOMAIN f.declReads : Range(f.declReads[i]) \subseteq f.globals
 
 (* the loop state the while loop of RunOneStep reads is its own: no pack line (local assignment *)
 (* of a block variable) comes between its initialisation and the loop                          *)
@@ -147,7 +159,8 @@ NoOwnNameCaptured(f) == /\ Range(NamesOf(f.pack)) \cap ModuleOwnNames = {}
 (* import + SFCModel(): every declared series exists with its declared length *)
 NoModule == [status |-> "none", STEP |-> 0, lens |-> << >>, reads |-> << >>, resid |-> TRUE]
 
-ImportOp(f) == [status |-> "ok", STEP |-> 0, lens |-> f.decl, reads |-> << >>, resid |-> TRUE]
+ImportOp(f) == [status |-> IF DeclClosed(f) THEN "ok" ELSE "NameError",
+                STEP |-> 0, lens |-> f.decl, reads |-> << >>, resid |-> TRUE]
 
 HasSeries(m, nm) == \E i \in DOMAIN m.lens : m.lens[i].name = nm
 LenOf(m, nm) == IF HasSeries(m, nm) THEN (m.lens[CHOOSE i \in DOMAIN m.lens : m.lens[i].name = nm]).len ELSE 0
@@ -195,7 +208,7 @@ vars == << phase, ngen, blk, parser, gen, file, mod >>
 NoBlock  == [endo |-> << >>, lagged |-> << >>, exos |-> << >>, ics |-> << >>, maxTime |-> 0, foundT |-> FALSE]
 NoParser == [endo |-> << >>, lagged |-> << >>, exos |-> << >>, ics |-> << >>, maxTime |-> 0]
 NoGen    == [exos |-> << >>, all |-> << >>, nonLagged |-> << >>, eqReads |-> << >>]
-NoFile   == [decl |-> << >>, pack |-> << >>, orig |-> << >>, iterUnpack |-> << >>, iterBinds |-> << >>,
+NoFile   == [globals |-> {}, declReads |-> << >>, decl |-> << >>, pack |-> << >>, orig |-> << >>, iterUnpack |-> << >>, iterBinds |-> << >>,
              iterReads |-> << >>, unpack |-> << >>, loopAfterPack |-> TRUE, varList |-> << >>, header |-> << >>]
 
 Init == /\ phase = "init" /\ ngen = 0 /\ blk = NoBlock /\ parser = NoParser /\ gen = NoGen /\ file = NoFile
@@ -236,7 +249,7 @@ GenerateFile ==
 Import ==
     /\ phase = "file"
     /\ mod' = ImportOp(file)
-    /\ phase' = IF parser.maxTime = 0 THEN "done" ELSE "imported"
+    /\ phase' = IF parser.maxTime = 0 \/ mod'.status # "ok" THEN "done" ELSE "imported"
     /\ UNCHANGED << ngen, blk, parser, gen, file >>
 
 RunStep(r) ==
@@ -269,7 +282,10 @@ HasFile == phase \in {"file", "imported", "running", "done"}
 Stepped == phase \in {"running", "done"} /\ mod.STEP >= 1
 
 (* every name the generated Iterator reads is bound by the unpacking of in_vec or comes from math *)
-C20_Closed == HasFile => ClosedFile(file)
+C20_Closed == HasFile => (ClosedFile(file) /\ DeclClosed(file))
+
+(* the generated module resolves every math / builtin name the in-process solver resolves *)
+C20_ResolvesSolverNames == HasFile => SolverNames \subseteq file.globals
 
 (* the loop state of the generated step is distinct from every block variable; no block variable *)
 (* captures a name of the generated class                                                         *)
